@@ -151,13 +151,7 @@ def _reg_elt(gid, a):
 
 def view(ip, e):
     """mathematical value of an element object"""
-    ho = ip.ctx.obj(e)
-    cn = ho.clsname()
-    if cn == "EltSpec":
-        return ip.getattr(e, "_v", True)
-    if cn == "groups._Element":
-        return ip.getattr(e, "_e", True)
-    raise Unsupported("view of %s" % cn)
+    return ip.getattr(e, "_v", True)
 
 
 def mk_elt(ip, label):
@@ -165,13 +159,7 @@ def mk_elt(ip, label):
 
 
 def group_of(ip, e):
-    ho = ip.ctx.obj(e)
-    cn = ho.clsname()
-    if cn == "EltSpec":
-        return ip.getattr(e, "_g", True)
-    if cn == "groups._Element":
-        return ip.getattr(e, "_group", True)
-    raise Unsupported("group_of %s" % cn)
+    return ip.getattr(e, "_g", True)
 
 
 def gq(ip, g):
@@ -312,7 +300,9 @@ def ae(ip, g, seed):
 def ae_ok(ip, g, seed):
     if is_abstract_group(ip, g):
         return mkbool(f_ae_ok(_gid(ip, g), Bt(seed)))
-    raise Unsupported("ae_ok on concrete group")
+    p, es = ip.getattr(g, "p", True), ip.getattr(g, "element_size_bytes", True)
+    h = sym.HKDF(Bt(seed), sym.lit_bytes(b""), sym.lit_bytes(b"SPAKE2 arbitrary element"), I(es))
+    return mkbool(sym.bval(h) % I(p) != 0)
 
 
 def s2b(ip, g, i):
@@ -350,9 +340,9 @@ def rs(ip, g, e, k):
     if is_abstract_group(ip, g):
         gid = _gid(ip, g)
         t = f_rs(gid, IV(e.stream), I(k))
-        sym.FACTS.add(z3.And(t >= 0, t < f_q(gid)), "ILAW-rs-range")
         return mkint(t)
-    raise Unsupported("rs on concrete group")
+    q = ip.getattr(g, "q", True)
+    return rr(ip, q, e, k)
 
 
 # ---- protocol-level vocabulary (written from the statements of C03/C10/C17, not from the code) -----------
